@@ -1359,13 +1359,19 @@ class Module(ABC):
             key = parameter["key"]
             inds = parameter["indices"]
             set_param = parameter["val"]
+            # Groups of unequal size are padded with `-1` by `make_trainable()`.
+            is_padding = np.asarray(inds) < 0
+            if key in self.base.synapse_state_names:
+                # Synaptic states are stored separately for every synapse type.
+                synapse_inds = self.base.edges.groupby("type").rank()["global_edge_index"]
+                inds = (synapse_inds.astype(int) - 1).to_numpy()[inds]
             if key in states:  # Only initial states, not parameters.
                 # `inds` is of shape `(num_params, num_comps_per_param)`.
                 # `set_param` is of shape `(num_params,)`
                 # We need to unsqueeze `set_param` to make it `(num_params, 1)` for the
                 # `.set()` to work. This is done with `[:, None]`.
-                # Padded indices (`-1`) are moved out of bounds and dropped.
-                inds = jnp.where(np.asarray(inds) < 0, len(states[key]), inds)
+                # Padded indices are moved out of bounds and dropped.
+                inds = jnp.where(is_padding, len(states[key]), inds)
                 states[key] = states[key].at[inds].set(set_param[:, None], mode="drop")
 
         # Add to the states the initial current through every channel.
